@@ -1,5 +1,6 @@
 (* glue between text case files and the extracted model: hex/UTF-8 <-> list N *)
 open Model
+type string = Stdlib.String.t
 
 let rec pos_of_int (n : int) : positive =
   if n = 1 then XH else if n land 1 = 0 then XO (pos_of_int (n lsr 1)) else XI (pos_of_int (n lsr 1))
